@@ -6,6 +6,7 @@ import (
 	"sort"
 	"strings"
 	"sync"
+	"sync/atomic"
 	"time"
 
 	"github.com/massnetorg/mass-core/consensus"
@@ -164,13 +165,28 @@ func c07Case(t *core.T, long bool) {
 	g := &gate{}
 	g.Close()
 	parked := make(chan struct{})
-	var once sync.Once
+	// long cases: the worker is parked again at the beginning of its second batch (the rescan
+	// cursor is committed, the follower runs) and a reorganisation reaches down to the cursor
+	g2 := &gate{}
+	g2.Close()
+	parked2 := make(chan struct{})
+	var nBegin int32
 	w.Points.SetFn(func(name string) {
 		if name == "import.begin" {
-			once.Do(func() { close(parked); g.Wait() })
+			switch atomic.AddInt32(&nBegin, 1) {
+			case 1:
+				close(parked)
+				g.Wait()
+			case 2:
+				if long {
+					close(parked2)
+					g2.Wait()
+				}
+			}
 		}
 	})
 	defer g.Open()
+	defer g2.Open()
 	// hold the worker inside the first batch
 	methods := []string{"FetchScriptHashRelatedTx", "FetchBlockLocByHeight", "FetchTxByLoc"}
 	heldMethod := methods[t.R.Intn(len(methods))]
@@ -291,6 +307,44 @@ func c07Case(t *core.T, long bool) {
 		hold.armed = false
 		hold.mu.Unlock()
 	}
+	if long {
+		select {
+		case <-parked2:
+			cursor := uint64(0)
+			if ws, err := w.W.Wallets(); err == nil {
+				for _, s := range ws {
+					if s.WalletID == k.ID {
+						cursor = s.Status.SyncedHeight
+					}
+				}
+			}
+			tip := n.Height()
+			if cursor > 3 && cursor < tip {
+				// fork point 1, 2 or 3 below the cursor: the blocks from there up to the tip are replaced
+				F := cursor - uint64(t.R.Range(1, 3))
+				d := int(tip - F)
+				nb, _, err := wd.Fork(d, d+t.R.Range(0, 2), 2)
+				if err != nil {
+					g2.Open()
+					t.Fatalf("deep fork: %v", err)
+				}
+				if nb != nil {
+					w.Deliver(nb)
+					if !w.Quiesce(120 * time.Second) {
+						g2.Open()
+						t.Inconclusive("the follower did not finish the deep reorganisation within 120 s")
+						return
+					}
+					injected = append(injected, fmt.Sprintf("deep-f%d(cursor %d, fork point %d)", d, cursor, F))
+					wd.Logf("-- between batch 1 and 2 (cursor %d): reorganisation from height %d up", cursor, F+1)
+					t.Count("reorgs_reaching_the_rescan_cursor", 1)
+					interleaved++
+				}
+			}
+		case <-time.After(20 * time.Second):
+		}
+		g2.Open()
+	}
 	// further holds in later batches / rounds
 	for round := 0; round < t.R.Range(0, 3); round++ {
 		m := methods[t.R.Intn(len(methods))]
@@ -347,6 +401,13 @@ func c07Case(t *core.T, long bool) {
 		return
 	}
 	if !ready {
+		if ok, sum, _ := c20Structural(); ok {
+			w := wd.Witness()
+			w["goroutines"] = sum
+			w["injected"] = injected
+			t.Violate("import-never-finishes", "the chain stopped moving, the restored wallet is still reported as importing and every wallet goroutine is idle: nobody will finish the rescan", w)
+			return
+		}
 		t.Inconclusive("import not ready after 90s (no structural witness)")
 		return
 	}
